@@ -128,35 +128,46 @@ func (p *pushLog) ownServiceKeyDropped(proxyID string) bool {
 	return false
 }
 
-// endpointOnlyPushForOwnService reports whether the proxy saw an endpoint-only push for a hostname that was among
-// its service targets at that moment (such a push does not refresh the service targets).
+// endpointOnlyPushForOwnService reports whether the proxy was handed a non-forced request that carries the Endpoints key
+// of a hostname among its service targets (at that request or at the one before) without the service key of that
+// hostname. Which services a proxy is a target of also depends on EndpointSlice membership, but a request with only the
+// Endpoints key of the service either does not refresh the service targets at all (no service key of the proxy's
+// namespace in the unfiltered request) or refreshes them without any generator regenerating the inbound clusters and
+// listeners (CDS and LDS skip kind Endpoints).
 func (p *pushLog) endpointOnlyPushForOwnService(proxyID string) bool {
 	p.mu.Lock()
 	defer p.mu.Unlock()
-	ns := proxyID[strings.IndexByte(proxyID, '.')+1:]
-	for _, e := range p.by[proxyID] {
-		if e.forced {
+	es := p.by[proxyID]
+	for i, e := range es {
+		if e.forced || !e.pushed {
 			continue
 		}
-		// service targets are recomputed only for a service key of the proxy's namespace
-		recomputed := false
-		for _, k := range e.in {
-			if strings.HasPrefix(k, "ServiceEntry/"+ns+"/") {
-				recomputed = true
-			}
+		targets := append([]string(nil), e.targets...)
+		if i > 0 {
+			targets = append(targets, es[i-1].targets...)
 		}
-		if recomputed {
-			continue
-		}
-		for _, k := range e.in {
+		for _, k := range e.out {
 			if !strings.HasPrefix(k, "Endpoints/") {
 				continue
 			}
 			h := k[strings.LastIndexByte(k, '/')+1:]
-			for _, t := range e.targets {
+			own := false
+			for _, t := range targets {
 				if t == h {
-					return true
+					own = true
 				}
+			}
+			if !own {
+				continue
+			}
+			withService := false
+			for _, k2 := range e.out {
+				if strings.HasPrefix(k2, "ServiceEntry/") && strings.HasSuffix(k2, "/"+h) {
+					withService = true
+				}
+			}
+			if !withService {
+				return true
 			}
 		}
 	}
@@ -549,9 +560,8 @@ func (w *world) proxyCause(s *server, p proxySpec) string {
 	if !p.pod {
 		return ""
 	}
-	if w.proxyPodStale[p.name] {
-		return "proxy-pod-relabelled-while-not-ready"
-	}
+	// (finding F2p, a pod relabelled while not ready whose own proxy was not told, was recognised here from the harness'
+	// own record of such pods (w.proxyPodStale) until it was fixed in the tree: a0b3a80)
 	// (finding F9, a ProxyUpdate request merged into an endpoint-only push, was recognised here from the push log until
 	// it was fixed in the tree: 440f299)
 	return ""
